@@ -6,7 +6,7 @@
    the three-way correspondence (implementation, extracted model, extracted
    spec) — see DESIGN.md §6 C01. *)
 From SJ Require Import Model.Base Model.RefTables Spec.Json Model.Number Model.Str Model.Stage2 Model.Driver
-     Proofs.NumLex Proofs.NumberProofs Proofs.StrProofs Proofs.AtomProofs Proofs.AcceptProofs Proofs.RejectProofs Model.Tape Tie.GoTablesTie Tie.StrTablesTie.
+     Proofs.NumLex Proofs.NumberProofs Proofs.StrProofs Proofs.AtomProofs Proofs.AcceptProofs Proofs.RejectProofs Model.Tape Model.S2Ast Tie.GoTablesTie Tie.StrTablesTie Tie.Stage2AstTie.
 Open Scope N_scope.
 
 (* the full statement *)
@@ -88,3 +88,12 @@ Print Assumptions C01_token_true_partial.
 Print Assumptions C01_token_string_accept_partial.
 Print Assumptions C01_token_string_reject_partial.
 Print Assumptions C01_tie_follow_set.
+
+(* the stage-2 machine these theorems are about IS the machine in the source:
+   unifiedMachine's body, translated statement by statement from /repo's current
+   stage2_build_tape_amd64.go (gen/S2Prog.v, regenerated on every run), runs
+   exactly like Model/Stage2.run2 on every message and index-buffer sequence *)
+Theorem C01_stage2_machine_is_the_source : forall copy msg bufs,
+  run_ast gen.S2Prog.gen_unifiedMachine gen.S2Prog.gen_unifiedMachine_sites copy msg bufs = run2 copy msg bufs.
+Proof. exact stage2_translation_refines_model. Qed.
+Print Assumptions C01_stage2_machine_is_the_source.
